@@ -354,6 +354,7 @@ Inductive attempt :=
 | AForInt (n : name) (a b : Z)                    (* for n = a:b { n } *)
 | AForList (n : name) (l : list cval)             (* for n = [l...] { n } *)
 | ACall (n : name) (v : cval)                     (* func(n){n}(v) *)
+| ACallAlias (n y : name) (k : key) (v : cval)    (* func(n){y[k]=v;n}(y): the parameter is an alias of y's value *)
 | ARead (n : name).                               (* n *)
 
 Inductive scope := STop | SFn | SFn2 | SLoop.     (* at top level / inside func(){..}() / two deep / inside for 2 {..} *)
@@ -439,6 +440,18 @@ Definition eval_expr (e : env) (ex : expr) : env * res cval :=
   | ECallSet y k x => on_value (read_name e y) (fun v => x_idx_set v k x)
   end.
 
+(* n[k] = v : evalIndexAssigment *)
+Definition do_idx_set (c : ccfg) (e : env) (n : name) (k : key) (v : cval) : env * res cval :=
+  match read_name e n with
+  | (e1, Ok xv) =>
+    match x_idx_set xv k v with
+    | Ok nv => let (e2, r) := set_container c e1 n xv nv in
+               (e2, match r with Ok _ => Ok v | x => x end)
+    | Err => (e1, Err) | Dom => (e1, Dom) | Stuck => (e1, Stuck)
+    end
+  | (e1, x) => (e1, x)
+  end.
+
 Definition do_attempt (c : ccfg) (e : env) (a : attempt) : env * res cval :=
   match a with
   | AAssign n ex define =>
@@ -462,16 +475,7 @@ Definition do_attempt (c : ccfg) (e : env) (a : attempt) : env * res cval :=
       end
     | (e1, x) => (e1, x)
     end
-  | AIdxSet n k v =>
-    match read_name e n with
-    | (e1, Ok xv) =>
-      match x_idx_set xv k v with
-      | Ok nv => let (e2, r) := set_container c e1 n xv nv in
-                 (e2, match r with Ok _ => Ok v | x => x end)
-      | Err => (e1, Err) | Dom => (e1, Dom) | Stuck => (e1, Stuck)
-      end
-    | (e1, x) => (e1, x)
-    end
+  | AIdxSet n k v => do_idx_set c e n k v
   | ADelElem n k =>
     match env_get e n with
     | None => (e, Ok (XBool false))
@@ -500,6 +504,24 @@ Definition do_attempt (c : ccfg) (e : env) (a : attempt) : env * res cval :=
       | (e1, Ok _) => let (e2, r) := read_name e1 n in (tl e2, r)
       | (e1, x) => (tl e1, x)
       end
+  | ACallAlias n y k v =>
+    (* the argument is evaluated in the caller's frame; an integer could go to a register, but then y[k]=v fails anyway *)
+    match read_name e y with
+    | (e0, Ok w) =>
+      let bound := if is_int w && reg_bound c n then (empty_frame :: e0, Ok w)
+                   else create_or_set c (empty_frame :: e0) n w true in
+      match bound with
+      | (e1, Ok _) =>
+        match do_idx_set c e1 y k v with
+        | (e2, Ok _) =>
+          if is_int w && reg_bound c n then (tl e2, Ok w)
+          else let (e3, r) := read_name e2 n in (tl e3, r)
+        | (e2, x) => (tl e2, x)
+        end
+      | (e1, x) => (tl e1, x)
+      end
+    | (e0, x) => (e0, x)
+    end
   | ARead n => read_name e n
   end.
 
